@@ -8,16 +8,22 @@ import re
 import sys
 
 PY_TYPE = {"int": "int", "i32": "Annotated[int, ArrowType(pa.int32())]", "str": "str", "float": "float", "bool": "bool",
-           "bytes": "bytes", "list_int": "list[int]", "dc": "DcA"}
+           "bytes": "bytes", "list_int": "list[int]", "dc": "DcA", "enum": "Color", "dict": "dict[str, int]",
+           "fset": "frozenset[int]", "list_dc": "list[DcA]", "list_opt": "list[Optional[int]]", "newtype": "UserId",
+           "dc0": "Dc0", "ann_int": "Annotated[int, 'a note']", "batch": "pa.RecordBatch"}
 DEFAULTS = {"int": ("1", "2"), "i32": ("1", "2"), "str": ("'x'", "'y'"), "float": ("1.5", "2.5"), "bool": ("True", "False"),
-            "bytes": ("b'x'", "b'y'"), "list_int": ("(1,)", "(2,)"), "dc": ("DcA(1, 'x')", "DcA(2, 'y')")}
+            "bytes": ("b'x'", "b'y'"), "list_int": ("(1,)", "(2,)"), "dc": ("DcA(1, 'x')", "DcA(2, 'y')"),
+            "enum": ("Color.RED", "Color.GREEN"), "dict": ("{'a': 1}", "{'b': 2}"), "fset": ("frozenset({1})", "frozenset({2})"),
+            "list_dc": ("()", "(DcA(1, 'x'),)"), "list_opt": ("(1,)", "(None,)"), "newtype": ("UserId(1)", "UserId(2)"),
+            "dc0": ("Dc0()", "None"), "ann_int": ("1", "2"), "batch": ("None", "0")}
 VERSION = {"none": None, "v120": "1.2.0", "v130": "1.3.0"}
-DOCS = {"d0": "Do the thing.", "d1": "Perform an entirely different operation, documented at length.",
+DOCS = {"nodoc": None, "d0": "Do the thing.", "d1": "Perform an entirely different operation, documented at length.",
         "d2": "Do the thing.\n\n        Args:\n            a: the first argument, now documented.\n            z: renamed.\n"}
 
 PRELUDE = '''
 from dataclasses import dataclass
-from typing import Annotated, ClassVar, Optional, Protocol
+from enum import Enum
+from typing import Annotated, ClassVar, NewType, Optional, Protocol
 import pyarrow as pa
 from vgi_rpc.rpc import AnnotatedBatch, CallContext, ExchangeState, OutputCollector, ProducerState, RpcServer, Stream, StreamState
 from vgi_rpc.utils import ArrowSerializableDataclass, ArrowType
@@ -27,6 +33,19 @@ from vgi_rpc.utils import ArrowSerializableDataclass, ArrowType
 class DcA(ArrowSerializableDataclass):
     x: int
     y: str
+
+
+@dataclass(frozen=True)
+class Dc0(ArrowSerializableDataclass):
+    """A dataclass without fields."""
+
+
+class Color(Enum):
+    RED = "red"
+    GREEN = "green"
+
+
+UserId = NewType("UserId", int)
 
 
 @dataclass(frozen=True)
@@ -97,14 +116,16 @@ class R2(StreamState):
 '''
 
 
-def _ann(t: str, nul: bool) -> str:
-    return f"Optional[{PY_TYPE[t]}]" if nul else PY_TYPE[t]
+def _ann(t: str, nul: bool, osp: str = "opt") -> str:
+    if not nul:
+        return PY_TYPE[t]
+    return {"opt": f"Optional[{PY_TYPE[t]}]", "pipe": f"{PY_TYPE[t]} | None", "rpipe": f"None | {PY_TYPE[t]}"}[osp]
 
 
 def _sig(m: dict, with_defaults: bool = True) -> str:
-    parts = ["self"]
+    parts = ["self"] + (["*"] if m.get("kw") and m["params"] else [])
     for p in m["params"]:
-        s = f"{p['n']}: {_ann(p['t'], p['nul'])}"
+        s = f"{p['n']}: {_ann(p['t'], p['nul'], m.get('osp', 'opt'))}"
         if with_defaults and p["dflt"] != "none":
             s += " = " + DEFAULTS[p["t"]][0 if p["dflt"] == "d1" else 1]
         parts.append(s)
@@ -116,30 +137,46 @@ def _ret(m: dict) -> str:
     if k == "unary_void":
         return "None"
     if k == "unary_ret":
-        return _ann(m["ret"]["t"], m["ret"]["nul"])
+        return _ann(m["ret"]["t"], m["ret"]["nul"], m.get("osp", "opt"))
+    if k == "barestream":
+        return "Stream"
     state = {"producer": {"s1": "P1", "s2": "P2"}, "exchange": {"s1": "X1", "s2": "X2"},
              "rawstream": {"s1": "R1", "s2": "R2"}}[k][m["st"]]
     return f"Stream[{state}]" if m["hdr"] == "none" else f"Stream[{state}, {m['hdr'].upper()}]"
 
 
-def render(d: dict, server_id: str = "srv-a", impl_variant: int = 0) -> str:
+def _doc(key: str, indent: str) -> str:
+    d = DOCS[key]
+    return "" if d is None else f'{indent}"""{d}"""\n'
+
+
+def render(d: dict, server_id: str = "srv-a", impl_variant: int = 0, server_version: str = "") -> str:
     m = d["m"]
-    first = f"    def {m['name']}({_sig(m)}) -> {_ret(m)}:\n        \"\"\"{DOCS[m['doc']]}\"\"\"\n        ...\n"
+    first = f"    def {m['name']}({_sig(m)}) -> {_ret(m)}:\n{_doc(m['doc'], '        ')}        ...\n"
     second = "    def zz(self, x: int) -> int:\n        \"\"\"Fixed second method.\"\"\"\n        ...\n"
-    methods = [first] + ([second] if d["second"] else [])
+    inherit = bool(d.get("inherit"))
+    body = ""
+    if inherit:
+        body += f"class BaseProto(Protocol):\n    \"\"\"Shared methods.\"\"\"\n\n{first}\n\n"
+    methods = ([] if inherit else [first]) + ([second] if d["second"] else [])
     if d["order"] == "21":
         methods.reverse()
     ver = VERSION[d["version"]]
-    body = f"class {d['pname']}(Protocol):\n    \"\"\"{DOCS[d['pdoc']]}\"\"\"\n\n"
+    bases = "BaseProto, Protocol" if inherit else "Protocol"
+    body += f"class {d['pname']}({bases}):\n{_doc(d['pdoc'], '    ')}\n"
     if ver is not None:
         body += f"    protocol_version: ClassVar[str] = {ver!r}\n\n"
-    body += "\n".join(methods)
+    if d.get("private"):
+        body += ("    retry_limit: ClassVar[int] = 3\n\n    def _helper(self, q: int) -> int:\n"
+                 "        \"\"\"Private: never part of the wire contract.\"\"\"\n        ...\n\n")
+    body += "\n".join(methods) if methods else "    pass\n"
     names = ", ".join(["self"] + [p["n"] for p in m["params"]])
     impl = f"\n\nclass Impl{impl_variant}:\n    def {m['name']}({names}):\n        raise NotImplementedError\n\n"
     impl += "    def zz(self, x):\n        return x\n"
     if impl_variant:
         impl += "\n    def extra_helper(self):\n        return 1\n"
-    tail = f"\n\nSERVER = RpcServer({d['pname']}, Impl{impl_variant}(), server_id={server_id!r}, enable_describe=True)\n"
+    sv = f", server_version={server_version!r}" if server_version else ""
+    tail = f"\n\nSERVER = RpcServer({d['pname']}, Impl{impl_variant}(), server_id={server_id!r}{sv}, enable_describe=True)\n"
     return body + impl + tail
 
 
@@ -165,13 +202,13 @@ def _prelude() -> dict:
     return _PRELUDE_NS
 
 
-def build(d: dict, server_id: str = "srv-a", impl_variant: int = 0, cache: bool = True):
-    key = json.dumps([d, server_id, impl_variant], sort_keys=True)
+def build(d: dict, server_id: str = "srv-a", impl_variant: int = 0, cache: bool = True, server_version: str = ""):
+    key = json.dumps([d, server_id, impl_variant, server_version], sort_keys=True)
     if cache and key in _CACHE:
         return _CACHE[key]
     ns = dict(_prelude())          # the shared dataclasses / state classes; type hints resolve against this namespace
-    ns["__name__"] = "c39_generated_service"
-    exec(compile(render(d, server_id, impl_variant), f"<c39:{d['pname']}>", "exec"), ns)  # noqa: S102
+    ns["__name__"] = "c39_generated_" + d.get("module", "mod_a")
+    exec(compile(render(d, server_id, impl_variant, server_version), f"<c39:{d['pname']}>", "exec"), ns)  # noqa: S102
     srv = ns["SERVER"]
     if cache:
         _CACHE[key] = srv
@@ -183,12 +220,16 @@ def _arrow_name(t) -> str:
     import pyarrow as pa
 
     table = [(pa.int64(), "int64"), (pa.int32(), "int32"), (pa.utf8(), "utf8"), (pa.float64(), "float64"), (pa.bool_(), "bool"),
-             (pa.binary(), "binary")]
+             (pa.binary(), "binary"), (pa.dictionary(pa.int16(), pa.utf8()), "dict<int16,utf8>"),
+             (pa.map_(pa.utf8(), pa.int64()), "map<utf8,int64>")]
     for a, n in table:
         if t.equals(a):
             return n
     if pa.types.is_list(t) and t.value_type.equals(pa.int64()):
         return "list<int64>"
+    if pa.types.is_list(t) and pa.types.is_struct(t.value_type) and [(f.name, str(f.type), f.nullable) for f in t.value_type] == [
+            ("x", "int64", False), ("y", "string", False)]:
+        return "list<struct>"
     return f"other:{t}"
 
 
